@@ -48,6 +48,8 @@ type End struct {
 	wdl      time.Time     // write deadline (used only by bounded stream links)
 	space    chan struct{} // signalled when this end's queue shrinks (bounded stream links)
 
+	readErr error // every later Read fails with it (connection reset), see ResetByPeer
+
 	// PreWrite, when set (before the end is used), is called at the start of every Write of this end.
 	PreWrite func(b []byte)
 }
@@ -122,6 +124,11 @@ func (e *End) Read(p []byte) (int, error) {
 		if e.closed {
 			e.mu.Unlock()
 			return 0, net.ErrClosed
+		}
+		if e.readErr != nil {
+			err := e.readErr
+			e.mu.Unlock()
+			return 0, err
 		}
 		if len(e.q) > 0 {
 			d := e.q[0]
@@ -281,6 +288,18 @@ func (e *End) Close() error {
 	p.mu.Unlock()
 	return nil
 }
+
+// ResetByPeer makes every later Read of this end fail with ECONNRESET-like error (not EOF), as after a TCP RST.
+func (e *End) ResetByPeer() {
+	e.mu.Lock()
+	e.readErr = &net.OpError{Op: "read", Net: "mem", Err: os.NewSyscallError("read", errReset{})}
+	e.wake()
+	e.mu.Unlock()
+}
+
+type errReset struct{}
+
+func (errReset) Error() string { return "connection reset by peer" }
 
 // Closed reports whether Close was called on this end.
 func (e *End) Closed() bool { e.mu.Lock(); defer e.mu.Unlock(); return e.closed }
